@@ -100,7 +100,11 @@ def check(ctx):
                 return True
         return False
 
-    need("intent-transfer", lambda e: is_eq_state(e, "Transfer"), "true", "handshake.next_state == State::Transfer")
+    # `next_state == State::Transfer` as a comparison, or `match next_state { State::Transfer => .. }`
+    if [1 for bb, e, ls in sw if is_eq_state(e, "Transfer")]:
+        need("intent-transfer", lambda e: is_eq_state(e, "Transfer"), "true", "handshake.next_state == State::Transfer")
+    else:
+        need("intent-transfer", lambda e: field_path(e)[1][-1:] == ["next_state"] and e[0] != "call", "Transfer", "handshake.next_state == State::Transfer")
     # secret configured: either `is_none()` false edge or a Some-pattern on self.auth_secret
     ms1 = []
     ms2 = [(bb, e, ls) for bb, e, ls in sw if self_field(e) == "auth_secret" and any("Some" in l for l in ls.values())]
